@@ -340,6 +340,14 @@ def plan_history(i):
         slots[slot] = {"sha": sha, "name": name, "small": small, "faulted": faulted, "bi": bi}
         ops.append(["install", slot, sha, name])
 
+    def _install_exact(slot, bi):
+        base = bases[bi]
+        sha = base.sha
+        h.images[sha] = base.data
+        name = slot_name(slot, base.name)
+        slots[slot] = {"sha": sha, "name": name, "small": bi in _small_set(), "faulted": False, "bi": bi}
+        ops.append(["install", slot, sha, name])
+
     kinds_all = [("load", 10), ("load_fo", 3), ("dis", 14), ("opc", 5), ("opmod", 3), ("std", 5), ("mdumps", 3),
                  ("mloads", 3), ("import", 3), ("install", 8), ("rewrite", 3)]
     if W["have_click"]:
@@ -376,11 +384,31 @@ def plan_history(i):
                 ops.append(["rewrite", s, st["sha"], st["name"]])
             elif kind == "dis_abort":
                 k = rng.choice([1, 1, 2, 3, 4, 5, 8, 13, 21, rng.between(1, 60)])
-                ops.append(["dis_abort", s, st["sha"], st["name"], rng.choice(FORMATS), k,
+                fmt = rng.choice(FORMATS)
+                ops.append(["dis_abort", s, st["sha"], st["name"], fmt, k,
                             rng.choice(["EPIPE", "ENOSPC", "EIO", "CLOSED"])])
+                if rng.chance(2, 3):
+                    # probe the subsystem the fault just interrupted: the same format, on a sibling of the file
+                    # (same release, often the same program compiled by another producer: same function names)
+                    s2 = (s + 1) % nslots
+                    sib = _siblings(st["bi"], True)
+                    if sib and rng.chance(3, 4):
+                        _install_exact(s2, rng.choice(sib))
+                        st2 = slots[s2]
+                        ops.append(["dis", s2, st2["sha"], st2["name"], fmt])
+                    else:
+                        ops.append(["dis", s, st["sha"], st["name"], fmt])
             else:
                 k = rng.choice([1, 2, 3, 4, 5, 6, 8, 12, 20, rng.between(1, 80)])
                 ops.append(["load_abort", s, st["sha"], st["name"], k])
+                if rng.chance(1, 2):
+                    s2 = (s + 1) % nslots
+                    same_magic = [k2 for k2 in _siblings(st["bi"], False)
+                                  if bases[k2].magic_int == bases[st["bi"]].magic_int]
+                    if same_magic:
+                        _install_exact(s2, rng.choice(same_magic))
+                        st2 = slots[s2]
+                        ops.append(["load", s2, st2["sha"], st2["name"], True, False])
         elif kind == "opc":
             if rng.chance(1, 10):
                 ops.append(["opc", rng.choice(["3.14", "2.8", "0.9", "3.8"]), True if rng.chance(1, 2) else False])
